@@ -315,7 +315,10 @@ def build(spec):
     if spec["edns"] is not None:
         opts = [dns.edns.option_from_wire(OPTIONS[i][0], OPTIONS[i][1], 0, len(OPTIONS[i][1]))
                 for i in spec["options"]]
-        m.use_edns(spec["edns"], spec["eflags"], spec["payload"], options=opts)
+        if spec.get("request_payload"):
+            m.use_edns(spec["edns"], spec["eflags"], spec["payload"], request_payload=spec["request_payload"], options=opts)
+        else:
+            m.use_edns(spec["edns"], spec["eflags"], spec["payload"], options=opts)
     m.set_rcode(spec["rcode"])
     for item in spec["items"]:
         if kind == "u":
@@ -793,6 +796,12 @@ def work_large(task, col):
                 for origin in origins:
                     spec = large_spec(target, late, where, origin)
                     run_spec(spec, col, "large")
+                    if where == "owner" and late == LATE_NAMES[0]:
+                        # the same 16 KiB message carrying an OPT that advertises a small
+                        # payload (a reply received over TCP): parse + re-render must still
+                        # reproduce the bytes
+                        spec2 = dict(spec, edns=0, payload=1232, request_payload=65535)
+                        run_spec(spec2, col, "large-edns")
                     # independent confirmation that the construction hit the offset
                     col.count("large_targets")
 
